@@ -133,7 +133,7 @@ def _diag_clear_dominates(prog, rep, f):
     return clears
 
 
-def _only_these_writes(rep, f, allowed, prog):
+def _only_these_writes(rep, f, allowed, prog, also=()):
     """Besides the flag copy and the listed statements nothing writes or rebinds W."""
     m = Matcher(prog, f)
     for s in _stmts(f):
@@ -150,12 +150,195 @@ def _only_these_writes(rep, f, allowed, prog):
             continue
         if m.match(s, 'W = W.copy()') or m.match(s, 'W = np.copy(W)') or m.match(s, 'W = np.array(W)'):
             continue
-        if any(m.match(s, a) for a in allowed):
+        if any(m.match(s, a) for a in allowed) or any(s is a for a in also):
             continue
         if m.match(s, 'np.fill_diagonal(W, 0)'):
             continue
         rep.ob('D.no-other-write', f, s, False, 'unexpected additional write to W changes which entries are kept')
     rep.ob('D.no-other-write', f, 'writes to W in %s' % f.name, True, '', line=f.node.lineno)
+
+
+def _local_defs(f, stmts):
+    """name -> (value expression, defining statement) for locals of f assigned exactly once (tuple unpacking gives value[k])"""
+    params = {a.arg for a in f.node.args.args + f.node.args.kwonlyargs}
+    cnt, val = {}, {}
+
+    def bump(n, by=2):
+        cnt[n] = cnt.get(n, 0) + by
+    for s in stmts:
+        if isinstance(s, ast.Assign):
+            for t in s.targets:
+                if isinstance(t, ast.Name):
+                    bump(t.id, 1)
+                    val[t.id] = (s.value, s)
+                elif isinstance(t, (ast.Tuple, ast.List)):
+                    for k, e in enumerate(t.elts):
+                        if isinstance(e, ast.Name):
+                            bump(e.id, 1)
+                            val[e.id] = (ast.Subscript(value=s.value, slice=ast.Constant(value=k), ctx=ast.Load()), s)
+                        else:
+                            for x in ast.walk(e):
+                                if isinstance(x, ast.Name) and isinstance(x.ctx, ast.Store):
+                                    bump(x.id)
+        elif isinstance(s, (ast.AugAssign, ast.AnnAssign)) and isinstance(s.target, ast.Name):
+            bump(s.target.id)
+        elif isinstance(s, (ast.For, ast.With)):
+            for x in ast.walk(s.target if isinstance(s, ast.For) else ast.Tuple(elts=[i.optional_vars for i in s.items if i.optional_vars is not None])):
+                if isinstance(x, ast.Name):
+                    bump(x.id)
+    return {n: val[n] for n in val if cnt.get(n) == 1 and n not in params}
+
+
+def _resolve(e, defs, used, depth=0):
+    """e with single-definition locals replaced by their values (recursively); defining statements are added to `used`"""
+    class R(ast.NodeTransformer):
+        def visit_Name(self, n):
+            if isinstance(n.ctx, ast.Load) and n.id in defs and depth < 12:
+                v, at = defs[n.id]
+                used.append(at)
+                import copy as _c
+                return _resolve(_c.deepcopy(v), defs, used, depth + 1)
+            return n
+    import copy as _c
+    return ast.fix_missing_locations(R().visit(_c.deepcopy(e)))
+
+
+def _chain(e):
+    """base[s1][s2]... as (base, [s1, s2, ...]); an order array indexed by a slice inside a selector, X[I[a:b]], reads as X[I][a:b]"""
+    sels = []
+    while isinstance(e, ast.Subscript):
+        sl = e.slice
+        if isinstance(sl, ast.Subscript) and isinstance(sl.slice, ast.Slice) and (sl.slice.lower is not None or sl.slice.upper is not None) and _is_order(sl.value):
+            sels[:0] = [sl.value, sl.slice]
+        else:
+            sels.insert(0, sl)
+        e = e.value
+    return e, sels
+
+
+def _is_order(e):
+    """e is a permutation produced by np.argsort (possibly reversed): indexing by it and then slicing commutes with slicing it first"""
+    while isinstance(e, ast.Subscript) and isinstance(e.slice, ast.Slice):
+        e = e.value
+    return isinstance(e, ast.Call) and norm(e.func) in ('np.argsort', 'numpy.argsort')
+
+
+def _ranked_cut(prog, rep, f, stmts, cfg, m, sym_if):
+    """The statement W[rows[order][en:], cols[order][en:]] = 0 under any naming/splitting of its parts.  Returns (cut statement, en definition)."""
+    defs = _local_defs(f, stmts)
+    CAND = ('np.where(W)', 'np.nonzero(W)')
+    found = []
+    problems = {}
+    for s in stmts:
+        if not (isinstance(s, ast.Assign) and len(s.targets) == 1 and isinstance(s.targets[0], ast.Subscript) and norm(s.targets[0].value) == 'W'
+                and isinstance(s.value, ast.Constant) and s.value.value == 0 and isinstance(s.targets[0].slice, ast.Tuple) and len(s.targets[0].slice.elts) == 2):
+            continue
+        used = []
+        sides = [_chain(_resolve(e, defs, used)) for e in s.targets[0].slice.elts]
+        if not all(len(sel) == 3 for b, sel in sides):
+            continue
+        found.append((s, sides, used))
+    if len(found) != 1:
+        for r_ in ('G.kept-count', 'D.candidates-are-links', 'D.rank-descending', 'D.zero-the-tail'):
+            rep.ob(r_, f, 'W[ind[0][I][en:], ind[1][I][en:]] = 0', False,
+                   'no single statement zeroes W at (rows[order][en:], cols[order][en:]) -- %d candidates' % len(found), line=f.node.lineno)
+        return None, None
+    s, sides, used = found[0]
+    (b0, s0), (b1, s1) = sides
+    # candidates: both coordinate arrays come from np.where(W), components 0 and 1 in this order
+    okc = all(norm(b) in CAND for b in (b0, b1)) and norm(s0[0]) == '0' and norm(s1[0]) == '1'
+    rep.ob('D.candidates-are-links', f, s, okc, 'candidate set must be the nonzero entries of W, rows from component 0 and columns from component 1 '
+           '(found %s[%s] / %s[%s])' % (norm(b0), norm(s0[0]), norm(b1), norm(s1[0])))
+    # where is np.where(W) evaluated?  after the symmetric triangle has been removed
+    where_sites = [u for u in used + [s] if any(isinstance(x, ast.Call) and norm(x) in CAND for x in ast.walk(u))]
+    if sym_if is not None:
+        rep.ob('D.triangle-before-candidates', f, where_sites[0] if where_sites else s,
+               bool(where_sites) and all(cfg.dominates(sym_if, u) and sym_if.lineno < u.lineno for u in where_sites),
+               'candidates are collected before the symmetric triangle is removed')
+    # the same order on both sides, descending by weight of the candidates
+    o0, o1 = s0[1], s1[1]
+    same = ast.dump(o0) == ast.dump(o1)
+    desc = False
+    key = None
+    oc, osel = _chain(o0)
+    if isinstance(oc, ast.Call) and norm(oc.func) in ('np.argsort', 'numpy.argsort') and len(oc.args) == 1 and not oc.keywords:
+        a = oc.args[0]
+        rev = len(osel) == 1 and isinstance(osel[0], ast.Slice) and osel[0].lower is None and osel[0].upper is None and osel[0].step is not None and norm(osel[0].step) == '-1'
+        if rev and not isinstance(a, ast.UnaryOp):
+            desc, key = True, a
+        elif not osel and isinstance(a, ast.UnaryOp) and isinstance(a.op, ast.USub):
+            desc, key = True, a.operand
+    okk = False
+    if key is not None and isinstance(key, ast.Subscript) and norm(key.value) == 'W':
+        k = key.slice
+        okk = norm(k) in CAND or (isinstance(k, ast.Tuple) and len(k.elts) == 2 and all(
+            isinstance(e, ast.Subscript) and norm(e.value) in CAND and norm(e.slice) == str(i) for i, e in enumerate(k.elts)))
+    rep.ob('D.rank-descending', f, s, same and desc and okk,
+           'entries must be ranked by decreasing weight of the candidate entries, the same order for rows and columns (order: %s)' % norm(o0))
+    # the tail from position en on, on both sides
+    t0, t1 = s0[2], s1[2]
+    tail = all(isinstance(t, ast.Slice) and t.lower is not None and t.upper is None and t.step is None for t in (t0, t1)) and ast.dump(t0) == ast.dump(t1)
+    rep.ob('D.zero-the-tail', f, s, tail, 'exactly the entries ranked after position en must be zeroed (slices: %s / %s)' % (norm(s0[2]), norm(s1[2])))
+    # kept count: en = int(round(X)) with X == (n^2 - n) p / ud, n = len(W), ud the halving flag
+    en_def = None
+    if tail:
+        # find the (unresolved) count expression: the slice lower bound of the original statement, through its definitions
+        raw = None
+        for x in ast.walk(s.targets[0]):
+            if isinstance(x, ast.Slice) and x.lower is not None and x.upper is None:
+                raw = x.lower
+        seen = 0
+        while raw is not None and seen < 12:
+            seen += 1
+            if isinstance(raw, ast.Name) and raw.id in defs:
+                en_def = defs[raw.id][1]
+                raw = defs[raw.id][0]
+                b = m.match(raw, 'int(round($X))') or m.match(raw, 'round($X)') or m.match(raw, 'int(teachers_round($X))') or m.match(raw, 'teachers_round($X)')
+                if b:
+                    break
+            else:
+                b = m.match(raw, 'int(round($X))') or m.match(raw, 'round($X)') or m.match(raw, 'int(teachers_round($X))') or m.match(raw, 'teachers_round($X)')
+                break
+        else:
+            b = None
+        if raw is None:
+            # the lower bound sits in a temporary that was folded away: search the resolved slice
+            b = None
+        if not b:
+            low = t0.lower
+            b = m.match(low, 'int(round($X))') or m.match(low, 'round($X)') or m.match(low, 'int(teachers_round($X))') or m.match(low, 'teachers_round($X)')
+        if not b:
+            rep.ob('G.kept-count', f, s, False, 'number of kept entries is not round(...) of a formula (found %s)' % norm(t0.lower))
+        else:
+            X = b['X']
+            names = {x.id for x in ast.walk(X) if isinstance(x, ast.Name)}
+            nn = [n_ for n_ in names if n_ in defs and (m.match(defs[n_][0], 'len(W)') or m.match(defs[n_][0], 'W.shape[0]'))]
+            uds = _halving_flag(f, stmts, m)
+            ok = False
+            why = 'kept count %s does not canonicalise to (n^2 - n)*p/ud' % norm(X)
+            if len(nn) == 1 and uds is not None:
+                c = Canon(prog, f)
+                N, U = nn[0], uds
+                ok = c.equal(X, parse_expr('(%s*%s - %s) * p / %s' % (N, N, N, U)))
+            elif uds is None:
+                why = 'no flag that is 2 for symmetric input and 1 otherwise divides the kept count'
+            rep.ob('G.kept-count', f, en_def if en_def is not None else s, ok, why)
+            rep.ob('D.n-is-len-W', f, 'n = len(W)', len(nn) == 1, 'n in the kept count must be the number of nodes of W', line=f.node.lineno)
+    else:
+        rep.ob('G.kept-count', f, s, False, 'number of kept entries cannot be read: the zeroed index is not a tail slice')
+    return s, en_def
+
+
+def _halving_flag(f, stmts, m):
+    """name assigned 2 on the symmetric branch and 1 on the other"""
+    for s in stmts:
+        if isinstance(s, ast.If) and (m.match(s.test, 'np.allclose(W, W.T)') or m.match(s.test, 'np.all(W == W.T)') or m.match(s.test, '(W == W.T).all()')):
+            t = {x.targets[0].id: norm(x.value) for x in s.body if isinstance(x, ast.Assign) and len(x.targets) == 1 and isinstance(x.targets[0], ast.Name)}
+            e = {x.targets[0].id: norm(x.value) for x in s.orelse if isinstance(x, ast.Assign) and len(x.targets) == 1 and isinstance(x.targets[0], ast.Name)}
+            for n_ in t:
+                if t[n_] == '2' and e.get(n_) == '1':
+                    return n_
+    return None
 
 
 def _threshold_proportional(prog, rep, f):
@@ -213,40 +396,10 @@ def _threshold_proportional(prog, rep, f):
         rep.ob('D.sym-halves-count', f, 'ud = %s / ud = %s' % (norm(ud_true) if ud_true is not None else '?', norm(ud_false) if ud_false is not None else '?'),
                okud, 'ud must be 2 on the symmetric branch and 1 otherwise (an undirected connection is two entries)', line=sym_if.lineno)
         # diag clear before the symmetry test is not required; the triangle zeroing precedes np.where
-    # 5. kept-count formula
-    en_def = None
-    for s in stmts:
-        b = m.match(s, 'en = int(round($X))') or m.match(s, 'en = round($X)') or m.match(s, 'en = int(teachers_round($X))') or m.match(s, 'en = teachers_round($X)')
-        if b:
-            en_def = (s, b['X'])
-    if en_def is None:
-        rep.ob('G.kept-count', f, 'en = int(round((n*n - n) * p / ud))', False, 'number of kept entries is not round(...) of a formula', line=f.node.lineno)
-    else:
-        defs = {}
-        for s in stmts:
-            if isinstance(s, ast.Assign) and len(s.targets) == 1 and isinstance(s.targets[0], ast.Name) and s.targets[0].id in ('n',):
-                defs[s.targets[0].id] = s.value
-        c = Canon(prog, f)
-        ok = c.equal(en_def[1], parse_expr('(n*n - n) * p / ud'))
-        rep.ob('G.kept-count', f, en_def[0], ok,
-               'kept count %s does not canonicalise to (n^2 - n)*p/ud' % norm(en_def[1]))
-        ndef = defs.get('n')
-        rep.ob('D.n-is-len-W', f, 'n = %s' % (norm(ndef) if ndef is not None else '?'),
-               ndef is not None and (m.match(ndef, 'len(W)') or m.match(ndef, 'W.shape[0]')) is not None,
-               'n must be the number of nodes of W', line=f.node.lineno)
-    # 6. ranking: descending order, tail zeroed; index arrays from np.where(W) after triangle zeroing
-    ind_def = [s for s in stmts if m.match(s, 'ind = np.where(W)') or m.match(s, 'ind = np.nonzero(W)')]
-    rep.ob('D.candidates-are-links', f, ind_def[0] if ind_def else 'ind = np.where(W)', len(ind_def) == 1,
-           'candidate set must be the nonzero entries of W', line=f.node.lineno)
-    if ind_def and tri is not None:
-        rep.ob('D.triangle-before-candidates', f, ind_def[0], cfg.dominates(sym_if, ind_def[0]) and sym_if.lineno < ind_def[0].lineno,
-               'candidates are collected before the symmetric triangle is removed')
-    I_def = [s for s in stmts if m.match(s, 'I = np.argsort(W[ind])[::-1]') or m.match(s, 'I = np.argsort(-W[ind])')]
-    rep.ob('D.rank-descending', f, I_def[0] if I_def else 'I = np.argsort(W[ind])[::-1]', len(I_def) == 1,
-           'entries must be ranked by decreasing weight (argsort reversed)', line=f.node.lineno)
-    cut = [s for s in stmts if m.match(s, 'W[ind[0][I][en:], ind[1][I][en:]] = 0')]
-    rep.ob('D.zero-the-tail', f, cut[0] if cut else 'W[ind[0][I][en:], ind[1][I][en:]] = 0', len(cut) == 1,
-           'exactly the entries ranked after position en must be zeroed', line=f.node.lineno)
+    # 5./6. kept-count formula and ranking, read from the statement that zeroes the tail.  Local names are
+    #        resolved through their single definitions, so the rule does not depend on how the index arrays,
+    #        the order and the count are named or split into temporaries.
+    cut, en_def = _ranked_cut(prog, rep, f, stmts, cfg, m, sym_if if tri is not None else None)
     # 7. symmetric rebuild by in-place slice store
     reb = None
     for s in stmts:
@@ -259,12 +412,12 @@ def _threshold_proportional(prog, rep, f):
     rep.ob('D.sym-rebuild-in-place', f, reb if reb is not None else 'W[:, :] = W + W.T', okr,
            'symmetric input must be rebuilt as W + W.T by a slice store into W (so copy=False callers see it), under the symmetric flag',
            line=f.node.lineno)
-    if reb is not None and cut:
-        rep.ob('D.rebuild-after-cut', f, reb, cfg.dominates(cut[0], reb) and all(cfg.dominates(reb, r) or not okr for r in []) , 'rebuild precedes thresholding')
+    if reb is not None and cut is not None:
+        rep.ob('D.rebuild-after-cut', f, reb, cfg.dominates(cut, reb), 'rebuild precedes thresholding')
     # 8. no other write
-    allowed = ('W[np.tril_indices(n)] = 0', 'W[np.triu_indices(n)] = 0', 'W[ind[0][I][en:], ind[1][I][en:]] = 0',
+    allowed = ('W[np.tril_indices($_)] = 0', 'W[np.triu_indices($_)] = 0',
                'W[:, :] = W + W.T', 'W[...] = W + W.T', 'W[:] = W + W.T', 'W += W.T')
-    _only_these_writes(rep, f, allowed, prog)
+    _only_these_writes(rep, f, allowed, prog, also=(cut,) if cut is not None else ())
 
 
 def _disj(t):
